@@ -38,6 +38,7 @@ RowOK(row) ==
 TableOK == /\ Cardinality(GroupNames) = Len(Table)
            /\ \A k \in 1..Len(Table) : RowOK(Table[k]) \/ Print(<<"BAD-ROW", Table[k].g>>, FALSE)
            /\ Paired \subseteq GroupNames
+           /\ Paired = {Table[k].g : k \in {j \in 1..Len(Table) : {"ref", "own"} \subseteq FormNames(Table[j])}}
            /\ \A g \in Paired : "own" \in FormNames(Row(g)) /\ "ref" \in FormNames(Row(g))
            \* every preparation is used by some group and every pair of Appendix B has operand variants
            /\ PrepKeys = UNION {{p.prep : p \in Preps(RecvTy(Table[k].g), [j \in 1..Len(Table[k].ps) |-> 2]) \cup Preps(RecvTy(Table[k].g), [j \in 1..Len(Table[k].ps) |-> 0])} : k \in 1..Len(Table)}
@@ -68,13 +69,19 @@ InitAged == \E k \in 1..Len(Table) :
                        cur = Case(row.g, tr \o rest, p.prep, p.old, "other", 0, "plain")
 InitVar == \E k \in 1..Len(Table) : \E t \in {u \in TupA(Table[k].ps) : Acc(Table[k].g, u)} : \E v \in Variants(Table[k].g, t) :
                cur = Case(Table[k].g, t, "", <<>>, v.rhs, v.sc, "mixed")
-Init == InitFresh \/ InitAged \/ InitVar
+\* (iv) every by-reference / consuming pair on INEXACT data (k/10, k/3, random significands, magnitudes 1e-8..1e8
+\* within one operand; f64 and Complex<f64>), every accepted shape / length relation; polynomial lengths up to MaxSize + 3
+InexPats == {"inexact1", "inexact2", "inexactc1"}
+IsPoly(g) == g \in {"poly.add", "poly.sub", "poly.mul", "poly.neg", "poly.mul_scalar"}
+InitInex == \E g \in Paired : \E t \in {u \in TupOf(Row(g).ps, IF IsPoly(g) THEN MaxSize + 3 ELSE MaxSize, MaxSmall) : Acc(g, u)} :
+               \E pt \in InexPats : cur = Case(g, t, "", <<>>, "other", 0, pt)
+Init == InitFresh \/ InitAged \/ InitVar \/ InitInex
 Next == UNCHANGED cur
 Spec == Init /\ [][Next]_vars
 
 Consistent == /\ cur.op \in GroupNames /\ Len(cur.t) = Len(Row(cur.op).ps)
               /\ cur.accept = Acc(cur.op, cur.t)
               /\ (~Row(cur.op).guard) => cur.accept
-              /\ cur.prep \in PrepKeys \cup {""} /\ (cur.pat = "mixed" => cur.accept)
+              /\ cur.prep \in PrepKeys \cup {""} /\ (cur.pat # "plain" => cur.accept)
 EmitCase == Emit => PrintT(<<"CASE", ToJson(cur)>>)
 =============================================================================
